@@ -26,6 +26,16 @@ impl SimpleSequence {
         }
     }
 
+    /// `id` has been used by an entry applied from the raft log - possibly issued by another
+    /// node, or by this node before it lost and regained leadership: never hand out an id at or
+    /// below it. The ids that are skipped come out of the reserved batch.
+    pub fn mark_used(&mut self, id: u64) {
+        if id > self.last_id {
+            self.cache_size = self.cache_size.saturating_sub(id - self.last_id);
+            self.last_id = id;
+        }
+    }
+
     pub fn next_id(&mut self) -> u64 {
         if self.cache_size == 0 {
             self.cache_size = self.batch_size;
